@@ -40,7 +40,7 @@ var strClass = map[string]map[string]string{
 	"ts":      {"ts1": "k1=v1,k2=v2", "ts0": ""},
 	"ru":      {"ru0": "", "ru1": "https://example.com/schemas/res/1.0", "ru2": "https://example.com/schemas/res/2.0"},
 	"su":      {"su0": "", "su1": "https://example.com/schemas/scope/1.0", "su2": "https://example.com/schemas/scope/2.0"},
-	"sn":      {"sn0": "", "sn1": "scope/one", "sn2": "scope/two"},
+	"sn":      {"sn0": "", "sn1": "scope/one", "sn2": "scope/two", "sndef": "go.opentelemetry.io/otel/sdk/tracer"},
 	"sv":      {"sv0": "", "sv1": "1.0.0", "sv2": "2.0.0"},
 	"desc":    {"d1": "a description", "d0": ""},
 	"unit":    {"u1": "ms", "u0": ""},
